@@ -201,6 +201,38 @@ def stale_flush_clause(ctx, R6, fi, rule):
                "the flush flag was decided on an earlier read of this call: when the refill read hits the end of the body the decoder is never flushed, so an incomplete zstd frame "
                "(or a held-back tail) goes unnoticed and read(n) / stream(n) end normally", witness=st.witness(), node=node)
 
+def multidecoder_flush_clause(ctx, R4):
+    """(C12-R4, shared with C13-R4) MultiDecoder.flush reaches every layer of a stacked coding."""
+    from ..rows import GenRule, effect_rows
+    from ..terms import T, destruct
+    m = ctx.model
+    md = f"{RS}.MultiDecoder"
+    DEC = "self._decoders"
+    LEN = T("len", DEC)
+    REV = (T("reversed", DEC), T("slice", DEC, "", "", "-1"), T("list", T("star", T("reversed", DEC))), T("reversed", T("list", DEC)))
+    REV_IDX = (T("range", T("sub", LEN, "1"), "-1", "-1"), T("reversed", T("range", LEN)), T("reversed", T("range", "0", LEN)), T("slice", T("range", LEN), "", "", "-1"))
+    fl = m.method(md, "flush")
+    frows = [r for r in effect_rows(ctx, fl, GenRule(ctx, RS), md) if r.returns]
+    # every decoder of the stack is flushed, in the order decompress() applies them (reverse header order), each one after having been fed
+    # what the previous flush released: an incomplete stream is only noticed by the flush of its OWN decoder (zstd raises there), so a
+    # flush() that reaches only one layer lets a truncated outer coding end normally (F23, repaired in /repo)
+    walks = []
+    for r in frows:
+        for e in r.events("call"):
+            lp = e[-1][1:] if isinstance(e[-1], tuple) and e[-1][:1] == ("in",) else ()
+            if e[1].endswith(".flush") and len(lp) == 1 and (lp[0] in REV and e[1] == f"each({lp[0]}).flush" or lp[0] in REV_IDX and e[1] == T("idx", DEC, T("each", lp[0])) + ".flush"):
+                walks.append(lp[0])
+    single = sorted({r.ret for r in frows if destruct(r.ret or "")[0] and ".flush" in (r.ret or "") and "each(" not in (r.ret or "")})
+    ok = bool(walks) and not single
+    ctx.ob(R4, fl.qual, "flush() flushes every decoder of the stack, in the order decompress() applies them", ok,
+           "" if ok else f"returns {'; '.join(r.ret for r in frows)[:120]}: only one layer is flushed - with `Content-Encoding: gzip, zstd` a truncated zstd layer is never asked whether its frame is complete "
+           "and the body ends normally with bytes missing", node=fl.node)
+    loops_ = [n_ for n_ in astq.walk_fn(fl.node) if isinstance(n_, ast.For)]
+    fed = any(isinstance(c_.func, ast.Attribute) and c_.func.attr == "decompress" for l_ in loops_ for c_ in astq.calls(l_))
+    ctx.ob(R4, fl.qual, "what one decoder's flush releases is fed to the next decoder before that one is flushed", fed or not walks,
+           "" if (fed or not walks) else "the bytes released by the outer decoder's flush are returned undecoded by the inner codings", node=fl.node)
+
+
 
 def run(ctx):
     m, fold = ctx.model, ctx.fold
@@ -417,9 +449,7 @@ def run(ctx):
     fl = m.method(md, "flush")
     frows = [r for r in effect_rows(ctx, fl, GenRule(ctx, RS), md) if r.returns]
     # rows on which the list of decoders is not empty flush its first element; an (unreachable) empty list yields nothing
-    live = [r for r in frows if r.truth(DEC) is not False]
-    ok = bool(live) and all(r.ret == T(f"idx({DEC},0).flush") for r in live) and all(r.ret in (K(b""), T(f"idx({DEC},0).flush")) for r in frows)
-    ctx.ob(R4, fl.qual, "flush() flushes the decoder applied last in decompress (first in header order)", ok, "; ".join(r.ret for r in frows))
+    multidecoder_flush_clause(ctx, R4)
 
     # ------------------------------------------------------------------ R5 registry / guard agreement
     R5 = ctx.rule("C12-R5", "codec registry agreement: each optional codec is added to CONTENT_DECODERS, to _get_decoder and to DECODER_ERROR_CLASSES under the same availability guard", "E8")
